@@ -161,11 +161,15 @@ pub fn cases(tier: Tier) -> Vec<Case> {
             }
         }
     }
+    // arenas whose root was replaced with add_root (layout >= 100): every case with <= 5 nodes once more, with the
+    // root away from node 0 and a former tree left behind unreachable
+    let extra: Vec<Case> = out.iter().enumerate().filter(|(_, c)| c.t.n_nodes() <= 5).map(|(i, c)| Case { t: c.t.clone(), layout: 100 + (i % 2) as u8, elim_first: c.elim_first }).collect();
+    out.extend(extra);
     out
 }
 
 fn build(c: &Case) -> AffTree<2> {
-    let mut t = c.t.build_layout::<2>(c.layout);
+    let mut t = if c.layout >= 100 { c.t.build_rerooted::<2>(c.layout) } else { c.t.build_layout::<2>(c.layout) };
     if c.elim_first {
         t.infeasible_elimination();
     }
